@@ -220,12 +220,50 @@ def check(P: Project, R: Report) -> None:
                     good = isinstance(dn, ast.Await) and isinstance(dn.value, ast.Call) and call_name(dn.value) == "send_initialize"
                 txt = an2.origin(subst_text(arg, st)) if arg is not None else "?"
                 return ("record:" if good else "record:BAD:") + txt
+            if call_name(call) == "send_initialize":
+                return "handshake"
             return None
 
         ta, to = run_paths(t.node, event_of=tev, fallible=False)
         recs = {e for st, _n in to.ret for e in st.events if e.startswith("record:")}
         ok = bool(recs) and not any(r.startswith("record:BAD:") for r in recs)
         R.ob("R4", f"{t.qual} records the answer's protocolVersion", ok, t.where, f"recorded values: {sorted(recs)}", sample=f"R4 {t.qual}: set_protocol_version({sorted(recs)[0][:80] if recs else None})")
+        # … on every path that made the handshake, unless there is nothing to record into
+        holders = set(t.params()) - {"self"}
+        for st, node in to.ret:
+            if "handshake" not in st.events or any(e.startswith("record:") for e in st.events):
+                continue
+            excuse = ""
+            for l in sorted(st.lits):
+                try:
+                    n = ast.parse(l, mode="eval").body
+                except SyntaxError:
+                    continue
+                neg = isinstance(n, ast.UnaryOp) and isinstance(n.op, ast.Not)
+                core = n.operand if neg else n
+                subj = None
+
+                def _holder(e):
+                    while isinstance(e, ast.Call) and call_name(e) in ("hasattr", "getattr", "callable") and e.args:
+                        e = e.args[0]
+                    return ast.unparse(e)
+
+                if neg:
+                    subj = _holder(core)
+                elif isinstance(core, ast.Compare) and len(core.ops) == 1 and isinstance(core.ops[0], ast.Is) and ast.unparse(core.comparators[0]) == "None":
+                    subj = _holder(core.left)
+                if subj is None:
+                    continue
+                root = subj.split(".")[0]
+                dn = ta.defs.get(subj, ("", None))[1]
+                is_answer = isinstance(dn, ast.Await) and isinstance(dn.value, ast.Call) and call_name(dn.value) == "send_initialize"
+                if root in holders or (root == "self" and subj.count(".") >= 1) or is_answer:
+                    excuse = l
+                    break
+            about = sorted(l[:70] for l in st.lits)[:8]
+            R.ob("R4", f"{t.qual} records the version after every handshake unless there is nothing to record into", bool(excuse), f"{t.module.rel}:{node.lineno}",
+                 f"a path returns the answer of a completed handshake without recording its version, under {about}: the tracked client keeps the batching mode of an earlier version",
+                 sample=f"R4 {t.qual}: unrecorded only when `{excuse[:60]}`")
         for st, node in to.ret:
             ret = ta.origin(subst_text(node.value, st)) if node.value is not None else "None"
             if "send_initialize(" in ret:
